@@ -13,7 +13,9 @@ PROPS["C09"] = dict(
           "[[A,B],[-B,-A]] with A+-B strictly diagonally dominant (SPD); large = n 150..400 (thorough). Options: DPR|OLSEN x min|safe|max x 4 "
           "tolerances x search space {default, neigen+1..2neigen, 2..10 neigen, 10 neigen} x iter_max 5..100 x dense|MatrixFreeOperator. "
           "Oracle Eigen::SelfAdjointEigenSolver. non-trivial = a restart certainly happened (2*neigen + iterations > search space limit) or the "
-          "lowest neigen+1 eigenvalues contain a gap < 1e-3 or a degeneracy (f2_diagdom: restart or >= 3 iterations)."),
+          "lowest neigen+1 eigenvalues contain a gap < 1e-3 or a degeneracy (f2_diagdom: restart or >= 3 iterations)."
+          " In 25 % of the generated cases the same solver object has completed an easy converging solve before (history: "
+          "status and results must not depend on it)."),
     assumptions=COMMON_ASSUME + [
         "solve() is called like BSE does (size_initial_guess left at its default 2*neigen, neigen <= n/4)",
         "an exception from solve() returns nothing and claims no status: counted as class 'throw:...' (a violation only in f2_diagdom, "
